@@ -21,6 +21,13 @@ func releaseAllocatedIPs(ippool *IPPool, session *PFCPSession) error {
 			return ippool.DeallocIP(session.localSEID)
 		}
 	}
+
+	// The PDR the address was allocated for may have been removed by a modification since: the
+	// address is held under the session's SEID until the session ends.
+	if ippool != nil && ippool.holds(session.localSEID) {
+		return ippool.DeallocIP(session.localSEID)
+	}
+
 	return nil
 }
 
